@@ -75,6 +75,9 @@ var c16ServerPrep = func(cfg *tls.Config) { kmip.DefaultServerTLSConfig(cfg) }
 
 // attackServer: a peer with the given certificate / max version (or plaintext) talks to a Server prepared by DefaultServerTLSConfig.
 // Returns what ran on the server and whether a KMIP response came back.
+// attackCipherSuites: the cipher suites the attacking client offers (nil: crypto/tls's defaults); set by c16LegacyCiphers only
+var attackCipherSuites []uint16
+
 func attackServer(ca, other *tlsm.CA, serverCert tls.Certificate, certKind string, maxVer uint16, plaintext bool, timeout time.Duration, probe string) (events string, gotResponse bool, err error) {
 	cfg := &tls.Config{Certificates: []tls.Certificate{serverCert}, ClientCAs: ca.Pool,
 		MinVersion: tls.VersionTLS10, ClientAuth: tls.NoClientCert} // weak prior contents: the defaults must override them
@@ -124,7 +127,7 @@ func attackServer(ca, other *tlsm.CA, serverCert tls.Certificate, certKind strin
 		return
 	}
 	if !plaintext {
-		ccfg := &tls.Config{RootCAs: ca.Pool, ServerName: "kmip.test", MinVersion: tls.VersionTLS10, MaxVersion: maxVer}
+		ccfg := &tls.Config{RootCAs: ca.Pool, ServerName: "kmip.test", MinVersion: tls.VersionTLS10, MaxVersion: maxVer, CipherSuites: attackCipherSuites}
 		if leaf := leafFor(certKind, ca, other, "client.test", true); leaf != nil {
 			ccfg.Certificates = []tls.Certificate{*leaf}
 		}
@@ -211,6 +214,7 @@ func runC16(r *Result, d *drv.Driver, tier string, seed int64, replay string) {
 	defer c16Sequences(r)
 	defer c16ChainTrust(r)
 	defer c16Expiry(r)
+	defer c16LegacyCiphers(r)
 	defer c16TicketForgery(r)
 	r.Rule = "exhaustive peer matrix against the real crypto/tls: a peer with certificate in {none, valid, self-signed, other CA, expired, wrong host, its own self-signed or foreign-CA leaf followed by a copy of a genuine client leaf / genuine server leaf / the CA certificate, a genuine leaf followed by junk} x max TLS version in {1.0, 1.1, 1.2, 1.3}, plus a plaintext peer, a peer that connects and leaves without sending anything, and one that leaves after the first bytes of a TLS record, " +
 		"attacks a Server (with read/write timeouts 2s, and with none) whose config (weak prior contents) went through DefaultServerTLSConfig (alone; and, for a configuration shared by both roles, followed or preceded by DefaultClientTLSConfig) - observed: session-auth / request-auth / handler invocations and whether a KMIP response came back; and a TLS server with each certificate x version impersonates towards a Client prepared by DefaultClientTLSConfig - observed: Connect result and application bytes received. Expected outcome = the model's handshake predicate. Plus client sequences: a trusting Client first, then a Client trusting only another CA against the same endpoint (TLS 1.2 and 1.3); a Server started by ListenAndServe whose own certificate chain (leaf + issuing CA, as servers are usually configured) comes from another CA than the one its clients must chain to: clients with a certificate from the client CA / from the server's issuing CA / self-signed / none (TLS 1.2 and 1.3, first and second start on the same configuration); and an outsider presenting a session ticket forged with keys the library itself yields for the server's public chain (ListenAndServe path). distinct = one per matrix cell"
@@ -578,8 +582,14 @@ func c16ChainTrust(r *Result) {
 		cert *tls.Certificate
 		ok   bool
 	}{
-		{"certificate issued by the client CA (ClientCAs)", func() *tls.Certificate { c := tlsm.Leaf(clientCA, tlsm.LeafOpts{Host: "client.test", Client: true}); return &c }(), true},
-		{"certificate issued by the CA of the server's own chain (not in ClientCAs)", func() *tls.Certificate { c := tlsm.Leaf(serverCA, tlsm.LeafOpts{Host: "client.test", Client: true}); return &c }(), false},
+		{"certificate issued by the client CA (ClientCAs)", func() *tls.Certificate {
+			c := tlsm.Leaf(clientCA, tlsm.LeafOpts{Host: "client.test", Client: true})
+			return &c
+		}(), true},
+		{"certificate issued by the CA of the server's own chain (not in ClientCAs)", func() *tls.Certificate {
+			c := tlsm.Leaf(serverCA, tlsm.LeafOpts{Host: "client.test", Client: true})
+			return &c
+		}(), false},
 		{"that certificate followed by the CA certificate", func() *tls.Certificate {
 			c := tlsm.Leaf(serverCA, tlsm.LeafOpts{Host: "client.test", Client: true})
 			c.Certificate = append(c.Certificate, serverCA.Cert.Raw)
@@ -767,4 +777,42 @@ func c16Expiry(r *Result) {
 		r.find(Finding{Kind: "violation", What: "a Client prepared by DefaultClientTLSConfig sent a request to a server whose certificate has EXPIRED (it was valid when the configuration was prepared)", Input: "server certificate NotAfter = " + issued.Add(life).UTC().Format(time.RFC3339), Expect: "connected=false request-bytes-received=false", Actual: thenC})
 	}
 	r.Stats["expiry-after-preparation-scenarios"] += 2
+}
+
+// c16LegacyCiphers: who is served does not depend on WHICH cipher suites the peer offers. A TLS 1.2 peer offering nothing but
+// one suite crypto/tls implements and does not enable by default (the CBC-SHA256, RC4, 3DES and plain-RSA suites of
+// tls.InsecureCipherSuites) and presenting no / a self-signed / a foreign-CA / an expired certificate: nothing runs, nothing
+// is sent (whether the handshake fails for want of a common suite or for want of a certificate is crypto/tls's business).
+func c16LegacyCiphers(r *Result) {
+	ca, other := tlsm.NewCA("c16-legacy-ca"), tlsm.NewCA("c16-legacy-foreign")
+	serverCert := tlsm.Leaf(ca, tlsm.LeafOpts{Host: "kmip.test"})
+	defer func() { attackCipherSuites = nil }()
+	suites := tls.InsecureCipherSuites()
+	groups := [][]uint16{}
+	var all []uint16
+	for _, cs := range suites {
+		groups = append(groups, []uint16{cs.ID})
+		all = append(all, cs.ID)
+	}
+	groups = append(groups, all)
+	for gi, g := range groups {
+		for _, kind := range []string{"none", "selfSigned", "otherCA", "expired"} {
+			name := "all of tls.InsecureCipherSuites"
+			if len(g) == 1 {
+				name = tls.CipherSuiteName(g[0])
+			}
+			key := fmt.Sprintf("TLS 1.2 peer offering only %s, client certificate: %s", name, kind)
+			crumb("C16 " + key)
+			r.eval(key, true)
+			attackCipherSuites = g
+			ev, resp, err := attackServer(ca, other, serverCert, kind, tls.VersionTLS12, false, 2*time.Second, "")
+			attackCipherSuites = nil
+			r.Stats["legacy-cipher-cells"]++
+			if ev != "sessionAuth=0 requestAuth=0 handler=0" || resp {
+				r.find(Finding{Kind: "violation", What: "a peer without a certificate chaining to the client-CA pool was served because of the cipher suites it offered", Input: key,
+					Expect: "sessionAuth=0 requestAuth=0 handler=0, no response", Actual: fmt.Sprintf("%s response=%v err=%v", ev, resp, err)})
+			}
+			_ = gi
+		}
+	}
 }
